@@ -265,6 +265,54 @@ EventDomain ==
   \cup {Ev("server", ta, o, ts, sr) : ta \in ServerArgs, o \in EvServers, ts \in EvTs, sr \in EvSrcs}
 
 -----------------------------------------------------------------------------
+(* FORMAT dn: the IDENTIFIER of an admin object <-> its distinguished name.  *)
+(* The id is not in the entry, it is in the DN (CellAllocation.dn /          *)
+(* _allocation_dn_parts / _dn2cellalloc_id, Partition.dn / _dn2partition_id, *)
+(* LdapObject.dn + the entity attribute create() adds).  A tenant path       *)
+(* t1:t2:t3 appears REVERSED in the DN (child first), so the decoder must     *)
+(* reverse it back.  value [kind, a, b, c]: a = tenant path (sequence of      *)
+(* names), b = allocation / partition / application name, c = cell.          *)
+
+DnRoot == "ou=treadmill,dc=verif"
+RECURSIVE Rev(_)
+Rev(sq) == IF sq = <<>> THEN <<>> ELSE Append(Rev(Tail(sq)), Head(sq))
+
+EncDn(v) ==
+  CASE v.kind = "cellalloc" ->
+         Join(<<"cell=" \o v.c, "allocation=" \o v.b>>
+              \o [i \in DOMAIN v.a |-> "tenant=" \o Rev(v.a)[i]]
+              \o <<"ou=allocations", DnRoot>>, ",")
+    [] v.kind = "partition" -> Join(<<"partition=" \o v.b, "cell=" \o v.c, "ou=cells", DnRoot>>, ",")
+    [] v.kind = "app" -> Join(<<"app=" \o v.b, "ou=apps", DnRoot>>, ",")
+
+DecDn(s) ==
+  LET p == Split(s, ",")
+      R == [i \in DOMAIN p |-> Split1(p[i], "=")]
+      ok == \A i \in DOMAIN R : Len(R[i]) = 2
+  IN IF ~ok \/ Len(p) < 3 THEN Bad
+     ELSE IF R[1][1] = "cell" /\ R[2][1] = "allocation"
+     THEN LET ts == SelectSeq(R, LAMBDA x : x[1] = "tenant")
+          IN [kind |-> "cellalloc", a |-> Rev([i \in DOMAIN ts |-> ts[i][2]]), b |-> R[2][2], c |-> R[1][2]]
+     ELSE IF R[1][1] = "partition" /\ R[2][1] = "cell"
+     THEN [kind |-> "partition", a |-> <<>>, b |-> R[1][2], c |-> R[2][2]]
+     ELSE IF R[1][1] = "app" THEN [kind |-> "app", a |-> <<>>, b |-> R[1][2], c |-> ""]
+     ELSE Bad
+
+DnNames == {"a", "b", "c", "t-1", "x.y", "09"}
+DnPaths ==
+  {<<x>> : x \in DnNames}
+  \cup {<<"a", "b">>, <<"b", "a">>, <<"a", "a">>, <<"t-1", "x.y">>, <<"x.y", "t-1">>, <<"09", "a">>}
+  \cup {<<"a", "b", "c">>, <<"c", "b", "a">>, <<"a", "b", "a">>, <<"a", "a", "b">>, <<"b", "a", "a">>,
+         <<"t-1", "09", "x.y">>}
+DnDomain ==
+  {[kind |-> "cellalloc", a |-> t, b |-> al, c |-> ce] :
+     t \in DnPaths, al \in {"x", "dev-1", "a.b"}, ce \in {"c1", "cell-2.x"}}
+  \cup {[kind |-> "partition", a |-> <<>>, b |-> pa, c |-> ce] :
+     pa \in {"p1", "_default", "p-2.x"}, ce \in {"c1", "cell-2.x"}}
+  \cup {[kind |-> "app", a |-> <<>>, b |-> ap, c |-> ""] :
+     ap \in {"proid.app", "pro-id.my-app.x", "p.a-1"}}
+
+-----------------------------------------------------------------------------
 (* tagged trees                                                             *)
 
 S(x) == <<"s", x>>
@@ -610,16 +658,17 @@ Lossless(x, n) ==
 -----------------------------------------------------------------------------
 (* the formats together                                                     *)
 
-NameFormats == {"rule", "uniq", "uid", "event"}
+NameFormats == {"rule", "uniq", "uid", "event", "dn"}
 Formats == NameFormats \cup {"zk", "ldap"}
 
 Domain(f) == CASE f = "rule" -> RuleDomain [] f = "uniq" -> UniqDomain [] f = "uid" -> UidDomain
                [] f = "event" -> EventDomain [] f = "zk" -> ZkDomain [] f = "ldap" -> LdapDomain
+               [] f = "dn" -> DnDomain
 
 Enc(f, v) == CASE f = "rule" -> EncRule(v) [] f = "uniq" -> EncUniq(v) [] f = "uid" -> EncUid(v)
-               [] f = "event" -> EncEvent(v)
+               [] f = "event" -> EncEvent(v) [] f = "dn" -> EncDn(v)
 Dec(f, v, s) == CASE f = "rule" -> DecRule(s) [] f = "uniq" -> DecUniq(s) [] f = "uid" -> DecUid(v, s)
-                  [] f = "event" -> DecEvent(s)
+                  [] f = "event" -> DecEvent(s) [] f = "dn" -> DecDn(s)
 
 (* what an encoding identifies: the whole value, except that a unique id    *)
 (* identifies the 77-bit seed, whichever instance it was generated for       *)
@@ -630,6 +679,7 @@ RuleSeq == SeqOfSet(RuleDomain)
 UniqSeq == SeqOfSet(UniqDomain)
 UidSeq == SeqOfSet(UidDomain)
 EventSeq == SeqOfSet(EventDomain)
+DnSeq == SeqOfSet(DnDomain)
 ZkSeq == SeqOfSet(ZkDomain)
 LdapSeq == SeqOfSet(LdapDomain)
 ModelLdapSeq == SeqOfSet(ModelLdapDomain)
@@ -639,7 +689,7 @@ ModelUpdSeq == SeqOfSet(ModelUpdDomain)
 (* indexing a domain sequence per state recomputes it)                      *)
 CheckedFormats == NameFormats \cup {"ldapmodel", "updmodel"}
 DomOf(f) == CASE f = "rule" -> RuleDomain [] f = "uniq" -> UniqDomain [] f = "uid" -> UidDomain
-              [] f = "event" -> EventDomain [] f = "ldapmodel" -> ModelLdapDomain
+              [] f = "event" -> EventDomain [] f = "dn" -> DnDomain [] f = "ldapmodel" -> ModelLdapDomain
               [] f = "updmodel" -> ModelUpdDomain
 
 VARIABLES fmt, k
